@@ -4,8 +4,9 @@ import json, os, sys, time, hashlib, traceback, tempfile, shutil
 from concurrent.futures import ProcessPoolExecutor
 
 ROOT = os.path.dirname(os.path.dirname(os.path.abspath(__file__)))
-EVID = os.path.join(ROOT, "evidence")
-REPLAYS = os.path.join(ROOT, "replays")
+# (the two directories can be redirected when a check is run against a scratch copy of the repository, e.g. a seeded change)
+EVID = os.environ.get("VERIF_EVID_DIR") or os.path.join(ROOT, "evidence")
+REPLAYS = os.environ.get("VERIF_REPLAY_DIR") or os.path.join(ROOT, "replays")
 os.environ.setdefault("PANDAPIPES_VERIF", "1")
 os.environ.setdefault("PYTHONHASHSEED", "0")
 
